@@ -177,6 +177,10 @@ func (a *Announce) getPeers(ctx context.Context, addr krpc.NodeAddr) traversal.Q
 		select {
 		case a.Peers <- peersValues:
 		case <-a.traversal.Stopped():
+		case <-ctx.Done():
+			// The traversal is stopping (it cancels the contexts of in-flight queries). It cannot
+			// reach stopped while this query is still delivering, so waiting for Stopped alone
+			// would wait for ourselves if the consumer no longer reads Peers.
 		}
 	}
 	return res.TraversalQueryResult(addr)
